@@ -426,6 +426,11 @@ def run(ck):
     reinit.INIT_EXCEPT[("stream_decoder_mt_init", "mem_direct_mode")] = \
         "memory of the direct-mode Block decoder, which is deliberately kept across re-initialisation"
     reinit.check_init_consistency(ck, prog, "C07-INITCONS", files={FILE})
+    # LZMA_IGNORE_CHECK means the same in both decoders: the flag reaches the Block options after the header decoder reset it
+    from . import C05 as _C05
+    ck.rule("C07-IGNCHK", "block_options.ignore_check is stored after lzma_block_header_decode() in both stream decoders")
+    _C05.check_ignore_check_flow(ck, prog, rule="C07-IGNCHK", parts=("after-header",))
+    ck.floor("C07-IGNCHK", 2)
     check_cve(ck, prog)
     check_acct(ck, prog)
     check_progress(ck, prog)
